@@ -65,7 +65,7 @@ def top_reduction_kinds(recipe):
     ks = []
     for n in walk(recipe):
         k = n[0]
-        if k in ("vsum", "vector_sum", "dot", "lincomb", "norm", "quad", "msum", "fro", "trace"):
+        if k in ("vsum", "vector_sum", "dot", "dotself", "lincomb", "norm", "quad", "msum", "fro", "trace"):
             ks.append(k)
     return ks
 
